@@ -65,8 +65,10 @@ _LOADER = DictLoader({
     "base": "{% block b %}{% endblock %}",
     "base_ab": "{% block p %}{% endblock %}{% block q %}{% endblock %}",
 })
-ENV = NativeEnvironment(loader=_LOADER)
-AENV = NativeEnvironment(loader=_LOADER, enable_async=True)
+_ENVS = {False: (NativeEnvironment(loader=_LOADER), NativeEnvironment(loader=_LOADER, enable_async=True)),
+         # native rendering does not escape: the autoescape setting must not change any result
+         True: (NativeEnvironment(loader=_LOADER, autoescape=True), NativeEnvironment(loader=_LOADER, enable_async=True, autoescape=True))}
+ENV, AENV = _ENVS[False]
 P = {}
 _TC = {}
 # VERIF_INCLUDE_KNOWN=1 drops the exclusions of SUSPECTED_DEFECTS inputs, so that the check re-finds them
@@ -74,7 +76,7 @@ INCLUDE_KNOWN = True  # all three listed defects were repaired in /repo by "fix:
 
 
 def _t(env, src):
-    key = (env is AENV, src)
+    key = (env is AENV, env.autoescape, src)
     t = _TC.get(key)
     if t is None:
         t = _TC[key] = env.from_string(src)
@@ -554,8 +556,9 @@ def _fresh_native(text, m, f, s):
 
 # ---------------------------------------------------------------- framework hooks
 def setup(param):
-    global P
+    global P, ENV, AENV
     P = dict(param or {})
+    ENV, AENV = _ENVS[bool(P.get("ae"))]
     if "form" in P:
         src = SINGLE_FORMS[P["form"]]
         _t(ENV, src)
@@ -570,6 +573,14 @@ def _text_witnesses(lo, n, combos):
         if lo + ti not in DEFECT_TI and [ti, c] not in out:
             out.append([ti, c])
     return out[:5]
+
+
+def known_markup_in_constant_container_ok():
+    """Known-finding witness: a constant container holding a value marked safe is folded to text that is not a literal."""
+    e = NativeEnvironment()
+    a = e.from_string('{{ ("a"|safe, 1) }}').render()
+    b = e.from_string('{{ (x|safe, 1) }}').render(x="a")
+    return type(a) is type(b) and a == b
 
 
 def conditions(tier, seed):
@@ -592,10 +603,11 @@ def conditions(tier, seed):
     chunk = 16
     for lo in range(0, len(TEXTS), chunk):
         n = min(chunk, len(TEXTS) - lo)
-        out.append(Cond(f"text[{lo}..{lo + n - 1}]", "text_ok", mode="B", param={"lo": lo, "n": n, "full": th}, timeout=to,
-                        witnesses=_text_witnesses(lo, n, combos),
-                        bounds=f"texts {lo}..{lo + n - 1} of the {len(TEXTS)}-entry table x {len(combos)} (template shape, entry point) pairs from "
-                               f"shapes {SHAPES} and entry points {ENTRIES} (minus the inputs listed in SUSPECTED_DEFECTS)"))
+        for ae in ((False, True) if (th or (lo // chunk + seed) % 2 == 0) else (False,)):
+            out.append(Cond(f"text[{lo}..{lo + n - 1}]" + ("[autoescape env]" if ae else ""), "text_ok", mode="B", param={"lo": lo, "n": n, "full": th, "ae": ae}, timeout=to,
+                            witnesses=_text_witnesses(lo, n, combos),
+                            bounds=f"texts {lo}..{lo + n - 1} of the {len(TEXTS)}-entry table x {len(combos)} (template shape, entry point) pairs from "
+                                   f"shapes {SHAPES} and entry points {ENTRIES}" + ("; environment created with autoescape=True (native rendering never escapes)" if ae else "")))
     pset = PT if th else PQ
     pc = _PFULL if th else _PQUICK
     for first in range(len(pset)):
